@@ -42,6 +42,7 @@ import (
 	"strings"
 	"sync"
 	"testing"
+	"time"
 
 	deadlock "github.com/sasha-s/go-deadlock"
 
@@ -238,8 +239,11 @@ func TestC18(t *testing.T) {
 	rep := ev.NewReporter("C18", "exploration")
 	thorough := ev.Thorough()
 
+	t0 := time.Now()
 	seam := runSeam(rep, thorough)
+	t1 := time.Now()
 	real := runReal(rep, thorough)
+	rep.Coverage["wall_s_per_half"] = map[string]float64{"seam": t1.Sub(t0).Seconds(), "real": time.Since(t1).Seconds()}
 
 	rep.Coverage["evaluations"] = seam.Evaluations + real.Runs
 	rep.Coverage["distinct_nontrivial"] = seam.Straddling + real.Runs
